@@ -6,6 +6,7 @@ import (
 	"go/token"
 	"go/types"
 	"sort"
+	"strings"
 
 	"golang.org/x/tools/go/packages"
 
@@ -127,10 +128,53 @@ func accessesOf(m *model.Model, p *packages.Package, h *heldDB, root ast.Node, v
 			return true
 		}
 		fn := innermostFunc(m, p, id)
+		// per-subscription state grouped into a struct (st := &bufferState{}; st.items = …): each field is a
+		// variable of its own, protected by whatever lock its accesses hold (st.mu)
+		if fv := stateField(m, p, id, v); fv != nil {
+			if isSyncSafeType(fv.Type()) {
+				return true
+			}
+			out[fv] = append(out[fv], varAccess{node: id, write: writes[id], atomic: atomics[id] || safeCalls[id], fn: fn, pkg: p, held: h.heldAt(p, id)})
+			return true
+		}
 		out[v] = append(out[v], varAccess{node: id, write: writes[id], atomic: atomics[id] || safeCalls[id], fn: fn, pkg: p, held: h.heldAt(p, id)})
 		return true
 	})
 	return out
+}
+
+// stateFieldVars: one pseudo-variable per (state variable, field).
+var stateFieldVars = map[string]*types.Var{}
+
+// stateField: id is a use of local variable v whose type is a struct (or pointer to struct) declared in the repository
+// and the use is `v.f…`: returns the pseudo-variable standing for field f of v.
+func stateField(m *model.Model, p *packages.Package, id *ast.Ident, v *types.Var) *types.Var {
+	t := v.Type()
+	if pt, ok := t.Underlying().(*types.Pointer); ok {
+		t = pt.Elem()
+	}
+	named, ok := t.(*types.Named)
+	if !ok || named.Obj().Pkg() == nil || !strings.HasPrefix(named.Obj().Pkg().Path(), ro) {
+		return nil
+	}
+	if _, isStruct := named.Underlying().(*types.Struct); !isStruct {
+		return nil
+	}
+	sel, ok := m.Parent(p, id).(*ast.SelectorExpr)
+	if !ok || ast.Unparen(sel.X) != ast.Expr(id) {
+		return nil
+	}
+	s, ok := p.TypesInfo.Selections[sel]
+	if !ok || s.Kind() != types.FieldVal {
+		return nil
+	}
+	key := fmt.Sprintf("%p.%s", v, sel.Sel.Name)
+	if fv := stateFieldVars[key]; fv != nil {
+		return fv
+	}
+	fv := types.NewVar(v.Pos(), v.Pkg(), v.Name()+"."+sel.Sel.Name, s.Type())
+	stateFieldVars[key] = fv
+	return fv
 }
 
 // directLocals lists the variables declared directly in fn's body (not in nested literals).
